@@ -209,3 +209,28 @@ class Holes2(ast.NodeTransformer):
             self.value = node.value
             return ast.copy_location(ast.Assign(targets=node.targets, value=ast.Constant(value="HOLE")), node)
         return node
+
+
+CHECK_TZNAME = """def check_tzname(tzinfo: Optional[dt.tzinfo]) -> Optional[str]:
+    if tzinfo is None:
+        return None
+    name: Optional[str] = tzinfo.tzname(None)
+    if not isinstance(name, str):
+        raise SchedulerError(MESSAGE)
+    return name
+"""
+
+
+def check_tzname(util_tree):
+    """self.__tz_str = check_tzname(tzinfo): None for a naive scheduler, else tzinfo.tzname(None), which must be a
+    string.  Recognised by template (the text of the error message is free)."""
+    fds = [f for f in util_tree.body if isinstance(f, ast.FunctionDef) and f.name == "check_tzname"]
+    if len(fds) != 1:
+        fail(util_tree.body[0], "check_tzname not found")
+    fd = ast.parse(ast.unparse(fds[0])).body[0]
+    fd.body = [b for b in fd.body if not (isinstance(b, ast.Expr) and isinstance(b.value, ast.Constant))]
+    for n in ast.walk(fd):
+        if isinstance(n, ast.Raise) and isinstance(n.exc, ast.Call) and len(n.exc.args) == 1:
+            n.exc.args = [ast.Name(id="MESSAGE", ctx=ast.Load())]
+    if ast.dump(fd) != ast.dump(ast.parse(CHECK_TZNAME).body[0]):
+        fail(fds[0], "check_tzname differs from the template the translator knows")
